@@ -339,12 +339,12 @@ CONDS = [
 ]
 EXPRS = [
     "x", "y + 1.0", "2.0", "x + y", "min(x, y)", "max(x, y)", "min([x, y])", "max((x, z))", "sum([x, y])", "sum((x, y, z))",
-    "x if a2 else y", "x if a1 else (y if a2 else z)", "max(x, 0.0) + min(y, z)",
+    "x if a2 else y", "x if a1 else (y if a2 else z)", "max(x, 0.0) + min(y, z)", "max(min(x, y), z)", "min(max(x, y), z)",
 ]
-EXPRS_SMALL = ["x", "y + 1.0", "min(x, y)", "x if a2 else y", "max([y, z])"]
+EXPRS_SMALL = ["x", "y + 1.0", "min(x, y)", "x if a2 else y", "max([y, z])", "max(min(x, y), z)"]
 CONDS_SMALL = ["a0", "not a1", "a0 and a1", "x > y", "a1 or a2", "not x >= y", "x != z", "a0 and not a1 and a2", "a0 or (a1 and a2)"]
 CONDS_TINY = ["a0", "not a1", "x > y", "a1 or a2"]
-EXPRS_TINY = ["x", "y + 1.0", "min(x, z)", "x if a2 else z"]
+EXPRS_TINY = ["x", "y + 1.0", "min(max(x, y), z)", "x if a2 else z"]
 HEAD = "def f(x, y, z, a0, a1, a2):\n"
 
 
